@@ -149,6 +149,24 @@ def entry_shape(rep, F):
             rep.bad("R8.3", "close:anchor", str(e))
 
 
+def qhull_scope(F, fn):
+    """hull_set and the private helpers of its module that it calls (transitively), so that extracting / inlining a helper does not hide the selection"""
+    seen, todo = [], [fn]
+    while todo:
+        g = todo.pop()
+        if g in seen:
+            continue
+        seen.append(g)
+        for c in g.calls():
+            h = F.fns.get(c.path or "")
+            if h is not None and h.kind != "Closure" and h.path.startswith(CH + "qhull::") and not h.path.endswith(("::quick_hull", "::hull_set")) and h not in seen:
+                todo.append(h)
+        for cl in F.closures_of(g):
+            if cl not in seen:
+                todo.append(cl)
+    return [g for g in seen if g.kind != "Closure"], [g for g in seen if g.kind == "Closure"]
+
+
 def tie_break(rep, F):
     rep.rule("R8.4", "the farthest-point selection in hull_set orders candidates by the computed key and breaks ties with a total order on the coordinates")
     try:
@@ -157,12 +175,13 @@ def tie_break(rep, F):
         rep.bad("R8.4", "anchor", str(e))
         return
     found = False
-    for c in fn.calls():
+    scope_fns, scope_cls = qhull_scope(F, fn)
+    for c in [c for g in scope_fns for c in g.calls()]:
         if c.method in ("max_by", "min_by", "max_by_key", "min_by_key") and c.trait == "core::iter::traits::iterator::Iterator":
             found = True
             # comparator closure
             cl = None
-            for g in F.closures_of(fn):
+            for g in scope_cls:
                 if any((cc.method in ("partial_cmp", "cmp", "total_cmp")) for cc in g.calls()) and g.arg_count == 3:
                     cl = g
             if cl is None:
@@ -254,16 +273,49 @@ def graham_comparator(rep, F):
 
 
 def farthest_key(rep, F):
+    rep.rule("R8.6", "quick hull farthest-point key = p_orth . (pt - p_a) with p_orth = (a.y - b.y, b.x - a.x): the candidate's coordinates enter only through differences with p_a")
+    try:
+        fn = F.one(r"^%sqhull::hull_set$" % CH, crates=("geo",))
+    except KeyError as e:
+        rep.bad("R8.6", "anchor", str(e))
+        return
+    scope_fns, _ = qhull_scope(F, fn)
+
+    class Rec:
+        def __init__(self):
+            self.log = []
+
+        def ok(self, *a, **k):
+            self.log.append(("ok", a, k))
+
+        def bad(self, *a, **k):
+            self.log.append(("bad", a, k))
+    results = []
+    for g in scope_fns:
+        r = Rec()
+        _farthest_key_in(r, F, g)
+        results.append(r.log)
+    good = [lg for lg in results if lg and all(k == "ok" for k, _, _ in lg)]
+    if good:
+        for k, a, kw in good[0]:
+            rep.ok(*a, **kw)
+        return
+    # report the most specific failure (a function in which a key closure was found)
+    cand = [lg for lg in results if any(k == "bad" and a[1] not in ("shape", "anchor") for k, a, _ in lg)] or results
+    for k, a, kw in (cand[0] if cand else []):
+        if k == "bad":
+            rep.bad(*a, **kw)
+
+
+def _farthest_key_in(rep, F, fn):
     """R8.6: the key of quick hull's farthest-point search is cross(b - a, pt - a), computed from coordinate DIFFERENCES with the segment's
     start: p_orth . (pt - a) with p_orth = (a.y - b.y, b.x - a.x).  Over the reals adding the constant p_orth . a changes nothing, in floats
     it destroys the selection for coordinates far from the origin (the property quantifies over exactly those inputs)."""
     from ..memberfold import subterms
     from ..poly import from_term, P, sym
-    rep.rule("R8.6", "quick hull farthest-point key = p_orth . (pt - p_a) with p_orth = (a.y - b.y, b.x - a.x): the candidate's coordinates enter only through differences with p_a")
     try:
-        fn = F.one(r"^%sqhull::hull_set$" % CH, crates=("geo",))
         ps = opaque(F, loop_bound=1).run(fn)
-    except (KeyError, Unanalysable) as e:
+    except Unanalysable as e:
         rep.bad("R8.6", "anchor", str(e))
         return
     keyc = None
